@@ -212,7 +212,9 @@ func hostileReplies() []hostileReply {
 			w.Header().Set(http.TrailerPrefix+"Grpc-Status-Details-Bin", "!!!")
 		}})
 	}
-	for _, cl := range []string{"0", "5", "6", "10", "-1", "abc", "99999999999999999999"} {
+	// (incl. the edges of the integer types a parser may pass through: 2^31, 2^32, 2^63-1, 2^63, 2^64-5, 2^64-1, 2^64)
+	for _, cl := range []string{"0", "5", "6", "10", "-1", "abc", "99999999999999999999", "+5", " 5", "5 ", "0x5", "2147483648", "4294967296", "4294967301",
+		"9223372036854775807", "9223372036854775808", "18446744073709551611", "18446744073709551615", "18446744073709551616"} {
 		cl := cl
 		rs = append(rs, hostileReply{"content-length-" + cl, auto(func(_ *wire.ServerResp, out *wire.ServerOut, _ *world.Reply) { out.Header.Set("Content-Length", cl) })})
 	}
